@@ -1,4 +1,5 @@
 import LhasaV.Lemmas.PmRT
+import LhasaV.Lemmas.GenInit
 /-!
 # C04 — PMarc pm1 and pm2 decode every valid stream exactly
 
@@ -73,5 +74,19 @@ theorem pm2_decode_serialise (st : Stream) (bits : List Bool) (h : pm2Bits st = 
           length := n, blockSize := b }).1.1
       = (pm2Expand st).take (min ks.sum n) :=
   PmRT.pm2_reads st bits h c n b ks hn
+
+/-- **Translator tie for the initial state**: `lha_pm1_init` / `lha_pm2_decoder_init` of the working tree are RUN and what they built
+is dumped into `Gen/Decoders.lean` on every run: pm1 clears its own state (ring of ZEROS, positions 0), pm2 starts with a ring of
+spaces, position 0, nothing to rebuild, both trees bare leaves – the states the models' `init` build (the history list is
+`init_history_list`'s, `Gen.pmaInitHistory`, which the model uses directly). -/
+theorem pm_init_matches_source (src : Src) :
+    ((Pm1.init src).ring = Array.replicate Gen.pm1RingCap 0 ∧ (Pm1.init src).pos = Gen.pm1InitRingPos ∧ (Pm1.init src).outPos = Gen.pm1InitOutputPos
+      ∧ Gen.pm1InitRingAllZero = 1 ∧ Gen.pm1InitOk = 1)
+    ∧ ((Pm2.init src).ring = Array.replicate Gen.pm2RingCap 0x20 ∧ (Pm2.init src).pos = Gen.pm2InitRingPos
+      ∧ (Pm2.init src).rebuildRemaining = Gen.pm2InitRebuildRemaining
+      ∧ (Pm2.init src).codeTree = Array.replicate Gen.pm2CodeTreeCap Gen.pm2LeafBit
+      ∧ (Pm2.init src).offsetTree = Array.replicate Gen.pm2OffsetTreeCap Gen.pm2LeafBit
+      ∧ Gen.pm2InitRingAllSpaces = 1 ∧ Gen.pm2InitTreesAllLeaf = 1 ∧ Gen.pm2InitOk = 1) :=
+  GenInit.pm_init_matches_source src
 
 end LhasaV.Props.C04
